@@ -9,8 +9,10 @@ import (
 	"bytes"
 	"encoding/json"
 	"fmt"
+	"io"
 	"math"
 	"os"
+	"reflect"
 	"runtime"
 	"sync/atomic"
 	"testing"
@@ -98,6 +100,25 @@ func c02Decode(data []byte, v any) error {
 	d := json.NewDecoder(bytes.NewReader(data))
 	d.UseNumber()
 	return d.Decode(v)
+}
+
+// what a ShedderGroup hands out wraps the member in a closer: unwrap it without naming the wrapper type
+// (a struct that is an io.Closer and embeds a Shedder)
+func c02Unwrap(s Shedder) (inner Shedder, closeErr error, ok bool) {
+	cl, isCloser := s.(io.Closer)
+	v := reflect.ValueOf(s)
+	if !isCloser || v.Kind() != reflect.Struct {
+		return nil, nil, false
+	}
+	for i := 0; i < v.NumField(); i++ {
+		f := v.Field(i)
+		if f.Kind() == reflect.Interface && f.CanInterface() {
+			if sh, isSh := f.Interface().(Shedder); isSh {
+				return sh, cl.Close(), true
+			}
+		}
+	}
+	return nil, nil, false
 }
 
 func c02Dyadic(v float64) (int64, int) {
@@ -218,13 +239,13 @@ func c02Run(c c02Case, orig func(int64) bool) (out c02Out, stable bool) {
 				s1 := group.GetShedder(cfg.Key)
 				s2 := group.GetShedder(cfg.Key)
 				o.Same = s1 == s2
-				nc, ok := s1.(nopCloser)
-				if !ok || nc.Close() != nil {
+				inner, cerr, ok := c02Unwrap(s1)
+				if !ok || cerr != nil {
 					o.Same = false
 				}
 				shs[k] = s1
 				if ok {
-					ass[k], _ = nc.Shedder.(*adaptiveShedder)
+					ass[k], _ = inner.(*adaptiveShedder)
 				}
 			} else {
 				shs[k] = NewAdaptiveShedder(c02Opts(cfg)...)
@@ -518,8 +539,10 @@ func TestVerifC02Group(t *testing.T) {
 			seen = append(seen, s)
 			s.Allow()
 			var fl int64 = -1
-			if as, ok := s.(nopCloser).Shedder.(*adaptiveShedder); ok {
-				fl = atomic.LoadInt64(&as.flying)
+			if inner, _, ok := c02Unwrap(s); ok {
+				if as, ok := inner.(*adaptiveShedder); ok {
+					fl = atomic.LoadInt64(&as.flying)
+				}
 			}
 			obs = append(obs, [2]int64{int64(idx), fl})
 		}
